@@ -412,6 +412,17 @@ func runBatch(bi *buildInfo, p *Prop, spec Spec, timeout time.Duration) (*BatchR
 	return &br, nil
 }
 
+func firstLine(err error) string {
+	s := err.Error()
+	if i := strings.Index(s, "\n"); i > 0 {
+		s = s[:i]
+	}
+	if len(s) > 300 {
+		s = s[:300]
+	}
+	return s
+}
+
 func tail(s string, n int) string {
 	if len(s) > n {
 		return "..." + s[len(s)-n:]
@@ -443,6 +454,7 @@ func jobs() int {
 }
 
 type agg struct {
+	infraRetries            int
 	runs, truncated, leaked int
 	steps, contended        int64
 	simSeconds              float64
@@ -539,6 +551,17 @@ func explore(p *Prop, tier string, seed uint64) (*agg, *RunResult, *buildInfo) {
 						spec.Samples = 3
 					}
 					br, err := runBatch(bi, p, spec, time.Until(deadline)+time.Duration(120)*time.Second)
+					if err != nil && (br == nil || br.Violation == nil || br.Violation.Violation == nil) {
+						// Runs are pure functions of (seed, run index, code): an infrastructure problem
+						// that does not recur when the same batch is run again in a fresh process is
+						// flakiness of the machinery (a rare real-thread race), not a verdict. Retry once;
+						// a problem that recurs is reported (exit 2).
+						fmt.Fprintf(os.Stderr, "vcheck: batch first=%d runs=%d of %s hit an infrastructure problem, retrying once: %v\n", first, n, p.ID, firstLine(err))
+						br, err = runBatch(bi, p, spec, time.Until(deadline)+time.Duration(240)*time.Second)
+						mu.Lock()
+						a.infraRetries++
+						mu.Unlock()
+					}
 					mu.Lock()
 					if err != nil {
 						if infraErr == nil {
@@ -599,6 +622,7 @@ func explore(p *Prop, tier string, seed uint64) (*agg, *RunResult, *buildInfo) {
 // check runs a property's exploration plus the sub-checks listed in Prop.Also (other
 // harnesses deciding further clauses of the same property) and writes one evidence file.
 func (a *agg) merge(b *agg) {
+	a.infraRetries += b.infraRetries
 	a.runs += b.runs
 	a.truncated += b.truncated
 	a.leaked += b.leaked
@@ -998,14 +1022,15 @@ func writeEvidence(p *Prop, h *Harness, bi *buildInfo, tier string, seed uint64,
 			"strategies":                     a.strat,
 			"truncated_runs":                 a.truncated,
 			"runs_with_abandoned_goroutines": a.leaked,
-			"components":                     map[string]any{"real": p.Real, "stub": p.Stub},
-			"rewriter":                       bi.Rewriter,
-			"toolchain":                      "go1.26.8 testing/synctest",
-			"pure_ride_along":                p.PureRideAlong,
-			"coverage_warnings":              warnings,
-			"known_findings_seen":            knownSeen,
-			"build_s":                        bi.BuildS,
-			"replay":                         replay,
+			"batches_retried_after_unreproducible_infrastructure_problem": a.infraRetries,
+			"components":          map[string]any{"real": p.Real, "stub": p.Stub},
+			"rewriter":            bi.Rewriter,
+			"toolchain":           "go1.26.8 testing/synctest",
+			"pure_ride_along":     p.PureRideAlong,
+			"coverage_warnings":   warnings,
+			"known_findings_seen": knownSeen,
+			"build_s":             bi.BuildS,
+			"replay":              replay,
 		},
 	}
 	b, _ := json.MarshalIndent(ev, "", " ")
